@@ -343,28 +343,29 @@ func runC02(c *Ctx, w *World, r *Report) {
 			for _, side := range [2][2]ssa.Value{{bo.X, bo.Y}, {bo.Y, bo.X}} {
 				m := side[1]
 				inv := bo.Op == token.AND_NOT && m == bo.Y
-				if u, ok := m.(*ssa.UnOp); ok && u.Op == token.XOR {
-					m, inv = u.X, !inv
-				}
-				tab, idx, ok := asElemLoad(m)
-				if !ok {
+				ms, ok := fa.MaskOf(m)
+				if !ok || (ms.Kind != "low" && ms.Kind != "high") {
 					continue
 				}
-				g, isG := tab.(*ssa.Global)
-				if !isG || (g.Name() != "MaskUpto" && g.Name() != "RMaskUpto" && g.Name() != "Mask" && g.Name() != "RMask") {
-					continue
+				if inv {
+					ms.Kind = complementKind(ms.Kind)
 				}
-				x, j, ok := asLowMask(idx)
-				if !ok || j != 6 {
-					continue
+				// which position does the mask speak about: N = (a&63)+1 ("above a") or N = a&63 ("from a on")
+				atA := func(L Lin) bool {
+					v := fa.AtomValueOfLin(L)
+					if v == nil {
+						return false
+					}
+					x, j, ok := asLowMask(v)
+					return ok && j == 6 && fa.VN(stripConv(x)) == firstVN
 				}
-				if fa.VN(stripConv(x)) != firstVN {
+				above, from := atA(ms.N.Add(linConst(-1))), atA(ms.N)
+				if !above && !from {
 					continue // the mask applied at the select-index base (Mask[base&63]) is another site
 				}
 				found = true
-				keepsAbove := g.Name() == "RMaskUpto" && !inv || g.Name() == "MaskUpto" && inv
-				if !keepsAbove {
-					badM = fmt.Sprintf("the selected word is masked with %s (inverted=%v) at the selected position: the next-1 search must keep exactly the bits above it (&^ MaskUpto / & RMaskUpto)", g.Name(), inv)
+				if !(above && ms.Kind == "high") {
+					badM = fmt.Sprintf("the selected word is masked with the %s side of bit %s (%s) at the selected position: the next-1 search must keep exactly the bits above it (&^ MaskUpto / & RMaskUpto)", ms.Kind, ms.N.String(), ms.Via)
 				}
 			}
 		})
